@@ -7,6 +7,7 @@ import LunarVerif.Proofs.C12Conc
 import LunarVerif.Proofs.C12Shared
 import LunarVerif.Proofs.C12SharedT
 import LunarVerif.Proofs.C12Keys
+import LunarVerif.Generated.C18Facts
 /-!
 # C12 — Stored responses are replayed only for the same key and only while fresh
 
@@ -182,6 +183,13 @@ theorem lookup_iff_stored (cfg : Cfg) (evs : List (Ev κ ν)) (k : κ) :
     (find? k (final (cfg.init : Cache κ ν) evs).entries).isSome = true ↔
       k ∈ keys (final (cfg.init : Cache κ ν) evs).entries :=
   find?_isSome_iff k _
+
+/-- Two removals of one key equal one: whatever the order in which two overlapping `Del`s (or a `Del` and the
+    key's sleeper) get the write lock, the second finds nothing to subtract and nothing to delete — so the accounted
+    size drops by the entry's size ONCE.  (That removal is one section is `clearKey_is_one_critical_section`.) -/
+theorem overlapping_removals_subtract_once (c : Cache κ ν) (k : κ) :
+    clearKey (clearKey c k) k = clearKey c k :=
+  clearKey_idem c k
 
 /-- A successful store never grows the number of pairs by more than one, and a re-store of a held key keeps it:
     after `set k …` there is exactly one pair for `k` (none when the TTL is ≤ 0). -/
@@ -549,5 +557,50 @@ example : ((trun absTtlExact ⟨.abs, [429]⟩ (Cache.init 500000000 false 0)
         .skip 1, .req 1 2 []] : List (POp Nat))).map fun r =>
         match r.out with | .early .. => 1 | _ => 0)
       = [0, 0, 1, 0, 0] := by decide
+
+end LunarVerif.C12
+
+/-! ## Step granularity of the interleaving model, tied to the source
+
+`Model/C12Conc.lean` takes `clearKey` (what `Del` and every TTL sleeper run), the insert of `Set` and the lookup
+of `Get`/`Has` as ATOMIC sections.  `Generated/C18Facts.lean` is rewritten from /repo's working tree on every run
+(`harness/go/cmd/extract`: per function, every access of a `MemoryCache` field with the locks held and the number
+of the critical section it lies in), so these `decide`s re-check what `utils/cache.go` says now: a removal split
+into "measure under the read lock, subtract under the write lock" (two removals of one key subtract twice and
+`held ≤ tracked` — hence `held ≤ max` — is gone) no longer satisfies them. -/
+namespace LunarVerif.C12
+open LunarVerif.C18 in
+/-- accesses of the map and of the accounted size inside function `fn` of `utils.MemoryCache` -/
+def cacheAccesses (fn : String) : List LunarVerif.C18.Access :=
+  LunarVerif.C18.Generated.facts.filter fun a =>
+    a.struct == "utils.MemoryCache" && a.func == fn && !a.init && (a.field == "cache" || a.field == "currentCacheSize")
+
+/-- `clearKey` touches both the map and the accounted size, everything inside ONE section under the write lock
+    (exclusive): lookup, size subtraction and delete cannot be separated by another caller. -/
+theorem clearKey_is_one_critical_section :
+    ((cacheAccesses "clearKey").any (fun a => a.field == "cache" && a.write)
+      && (cacheAccesses "clearKey").any (fun a => a.field == "currentCacheSize" && a.write)
+      && (cacheAccesses "clearKey").any (fun a => a.field == "cache" && !a.write)
+      && LunarVerif.C18.oneRegion (cacheAccesses "clearKey")
+      && (cacheAccesses "clearKey").all (fun a => a.locks.any fun l => l.name == "mutex" && l.excl)) = true := by
+  decide +kernel
+
+/-- `Set` writes the map and the accounted size in ONE exclusive section, and that section also READS the
+    accounted size (the re-check of the F12c repair happens under the same lock as the insert). -/
+theorem set_insert_is_one_critical_section :
+    (let ws := (cacheAccesses "Set").filter (·.write)
+     ws.any (·.field == "cache") && ws.any (·.field == "currentCacheSize")
+      && LunarVerif.C18.oneRegion ws
+      && ws.all (fun a => a.locks.any fun l => l.name == "mutex" && l.excl)
+      && (cacheAccesses "Set").any (fun a => a.field == "currentCacheSize" && !a.write
+            && ws.all (fun w => w.region == a.region))) = true := by
+  decide +kernel
+
+/-- `Get` and `Has` look the key up in one section under (at least) the read lock. -/
+theorem lookup_is_one_critical_section :
+    (["Get", "Has"].all fun fn =>
+      !(cacheAccesses fn).isEmpty && LunarVerif.C18.oneRegion (cacheAccesses fn)
+        && (cacheAccesses fn).all (LunarVerif.C18.protectedBy "mutex")) = true := by
+  decide +kernel
 
 end LunarVerif.C12
